@@ -129,7 +129,7 @@ var tailHeads = []tailHead{
 	{"PARALLEL WITH", ""},
 }
 
-var tailParts = []string{" ON CLUSTER c", " PERMANENTLY", " SYNC", " NO DELAY", " FINAL", " INTO OUTFILE 'f'", " FORMAT Null", " SETTINGS a = 1", " SETTINGS b = 'x', c = 2"}
+var tailParts = []string{" ON CLUSTER c", " PERMANENTLY", " SYNC", " NO DELAY", " FINAL", " INTO OUTFILE 'f'", " FORMAT Null", " SETTINGS a = 1", " SETTINGS b = 'x', c = 2", " FORMAT 'JSON'"}
 
 // fuzzSpace2 enumerates the structured spaces; each case is passed to run (sharding is done by run).
 func fuzzSpace2(w *W, run func(input, desc string)) {
